@@ -82,9 +82,14 @@ class ValDriver(Harness):
         rv, hs = self.p.find(self.s, [])
         return len(hs)
 
+    def kid(self, suffix=b""):
+        """CKA_ID of the key that is made next (keys are found again by it after a restart)"""
+        return b"k%d" % (self.nk + 1) + suffix
+
     def template(self, kind, label, extra=(), private=True):
         kt, n = KINDS[kind]
         return [(K.CKA_CLASS, K.CKO_SECRET_KEY), (K.CKA_KEY_TYPE, kt), (K.CKA_TOKEN, True), (K.CKA_PRIVATE, bool(private)),
+                (K.CKA_ID, self.kid()),
                 (K.CKA_SENSITIVE, False), (K.CKA_EXTRACTABLE, True), (K.CKA_LABEL, label), (K.CKA_ENCRYPT, True),
                 (K.CKA_DECRYPT, True), (K.CKA_SIGN, True), (K.CKA_VERIFY, True), (K.CKA_WRAP, True), (K.CKA_UNWRAP, True),
                 (K.CKA_DERIVE, True)] + list(extra)
@@ -161,9 +166,11 @@ class ValDriver(Harness):
         if kind == "rsa":
             r = TK.RSA1024
             rv, pub = p.create_object(s, [(K.CKA_CLASS, K.CKO_PUBLIC_KEY), (K.CKA_KEY_TYPE, K.CKK_RSA), (K.CKA_TOKEN, True),
+                                          (K.CKA_ID, self.kid(b"p")),
                                           (K.CKA_MODULUS, r["n"]), (K.CKA_PUBLIC_EXPONENT, r["e"]), (K.CKA_ENCRYPT, True),
                                           (K.CKA_VERIFY, True), (K.CKA_WRAP, True)] + xw)
             rv2, priv = p.create_object(s, [(K.CKA_CLASS, K.CKO_PRIVATE_KEY), (K.CKA_KEY_TYPE, K.CKK_RSA), (K.CKA_TOKEN, True),
+                                            (K.CKA_ID, self.kid()), (K.CKA_LABEL, b"imp"),
                                             (K.CKA_MODULUS, r["n"]), (K.CKA_PUBLIC_EXPONENT, r["e"]),
                                             (K.CKA_PRIVATE_EXPONENT, r["d"]), (K.CKA_PRIME_1, r["p"]), (K.CKA_PRIME_2, r["q"]),
                                             (K.CKA_EXPONENT_1, r["dp"]), (K.CKA_EXPONENT_2, r["dq"]), (K.CKA_COEFFICIENT, r["qi"]),
@@ -312,7 +319,8 @@ class ValDriver(Harness):
             kind = "gen24"
         before = self.count()
         # (the value of a key does not depend on CKA_PRIVATE: the keys the library makes are private and public in turn)
-        pv = self.nk % 2 == 0
+        self.made = getattr(self, "made", 0) + 1
+        pv = self.made % 2 == 0
         t = self.priv_template(b"unwrapped", pv) if kind == "rsa" else self.template(kind, b"unwrapped", private=pv)
         if kind != "rsa":
             # what the caller's template says about CKA_ENCRYPT
@@ -336,6 +344,7 @@ class ValDriver(Harness):
 
     def priv_template(self, label, private=True):
         return [(K.CKA_CLASS, K.CKO_PRIVATE_KEY), (K.CKA_KEY_TYPE, K.CKK_RSA), (K.CKA_TOKEN, True), (K.CKA_PRIVATE, bool(private)),
+                (K.CKA_ID, self.kid()),
                 (K.CKA_SENSITIVE, False), (K.CKA_EXTRACTABLE, True), (K.CKA_LABEL, label), (K.CKA_DECRYPT, True),
                 (K.CKA_SIGN, True), (K.CKA_UNWRAP, True)]
 
@@ -378,7 +387,8 @@ class ValDriver(Harness):
             mech = Mech(K.CKM_CONCATENATE_DATA_AND_BASE, p11.keyderiv_string(data))
             full = (data + kb["val"]) if kb["val"] else None
         kt, n = KINDS[kind]
-        t = self.template(kind, b"derived", private=(self.nk % 2 == 0))
+        self.made = getattr(self, "made", 0) + 1
+        t = self.template(kind, b"derived", private=(self.made % 2 == 0))
         if kt != K.CKK_DES3:
             t.append((K.CKA_VALUE_LEN, n))
         before = self.count()
@@ -399,13 +409,65 @@ class ValDriver(Harness):
             ev.update(k=self.nk, v=h(got), attrsok=self.attrs_ok(g, b"derived"))
         return ev
 
+    def made_how(self, k):
+        """'gen' | 'imp' | 'unwrap' | 'derive': from the label the driver gave the key"""
+        kk = self.keys[k]
+        g = kk["h"][1] if kk["kind"] == "rsa" else kk["h"]
+        rv, d = self.p.get_attrs(self.s, g, [K.CKA_LABEL])
+        return {b"imp": "imp", b"gen": "gen", b"unwrapped": "unwrap", b"derived": "derive"}.get(d.get(K.CKA_LABEL), "?") if rv == 0 else "?"
+
+    def history_ok(self, k):
+        """the attributes that say how the key was made, against what the driver knows about it"""
+        kk = self.keys[k]
+        kind = kk["kind"]
+        g = kk["h"][1] if kind == "rsa" else kk["h"]
+        how = self.made_how(k)
+        want = {K.CKA_LOCAL: b"\x01" if how == "gen" else b"\x00",
+                K.CKA_CLASS: (K.CKO_PRIVATE_KEY if kind == "rsa" else K.CKO_SECRET_KEY).to_bytes(8, "little"),
+                K.CKA_KEY_TYPE: (K.CKK_RSA if kind == "rsa" else KINDS[kind][0]).to_bytes(8, "little")}
+        gm = {"aes16": K.CKM_AES_KEY_GEN, "aes32": K.CKM_AES_KEY_GEN, "des3": K.CKM_DES3_KEY_GEN}.get(kind, K.CKM_GENERIC_SECRET_KEY_GEN)
+        want[K.CKA_KEY_GEN_MECHANISM] = (gm if how == "gen" else K.CK_UNAVAILABLE_INFORMATION).to_bytes(8, "little")
+        if how in ("imp", "unwrap"):
+            want[K.CKA_ALWAYS_SENSITIVE] = b"\x00"
+            want[K.CKA_NEVER_EXTRACTABLE] = b"\x00"
+        # (CKA_VALUE_LEN is not part of this: SoftHSM leaves it 0 on unwrapped keys - noted in DESIGN.md section 10)
+        rv, d = self.p.get_attrs(self.s, g, sorted(want))
+        bad = [hex(a) for a in sorted(want) if rv != 0 or d.get(a) != want[a]]
+        return how != "?" and not bad
+
     def MValue(self, k):
         kk = self.keys[k]
         if kk["kind"] == "rsa":
             val = self.rsa_value(kk["h"][1])
         else:
             val, kcv = self.read(kk["h"], kk["kind"])
-        return dict(e="Value", k=k, rv="OK" if val is not None else "ERR", v=h(val))
+        return dict(e="Value", k=k, rv="OK" if val is not None else "ERR", v=h(val), attrsok=self.history_ok(k))
+
+    def MValueR(self, k):
+        """C_Finalize / C_Initialize, every key found again by its CKA_ID, then as MValue"""
+        p = self.p
+        self.restart()
+        rv, self.s = p.open_session(self.slot["t1"], True)
+        rv = rv or p.login(self.s, K.CKU_USER, self.pin("P2"))
+        if rv:
+            raise RuntimeError("session after restart: " + rvname(rv))
+        lost = False
+        for n, kk in self.keys.items():
+            def find(tag):
+                r, hs = p.find(self.s, [(K.CKA_ID, tag)])
+                return hs[0] if len(hs) == 1 else 0
+            if kk["kind"] == "rsa":
+                kk["h"] = (find(b"k%dp" % n), find(b"k%d" % n))
+            elif "pub" in kk:
+                kk["h"] = find(b"k%d" % n)
+            else:
+                kk["h"] = find(b"k%d" % n)
+                lost = lost or not kk["h"]
+        ev = self.MValue(k)
+        ev["e"] = "ValueR"
+        if lost:
+            ev["attrsok"] = False
+        return ev
 
     # ---- operations
     def parts(self, data, ch):
